@@ -669,6 +669,10 @@ func runC06(c *core.Ctx) {
 	// the sender Close waits for does run, and what it flushed has left the wrapper's buffer when it reports idle
 	c.Rule("R8", "the sender Close waits for is started on every path; the wrappers' Flush drains their one write sink (shared with C18-R10, C17-R1/R5)", 2)
 	ruleExecutorsAreAsync(c, e, "R8")
+	// the sender the closer waits for drains the queue: it can dequeue (batch capacity >= 1) and does not leave
+	// while the queue it re-checks is non-empty
+	c.Rule("R9", "the sender re-checks the write queue itself after releasing the flag; its batch holds at least one packet (shared with C02-R2/R7)", 2)
+	importObligations(c, runC02, "R9", func(o *core.Obligation) bool { return o.Rule == "R2" || o.Rule == "R7" })
 	importObligations(c, runC17, "R8", func(o *core.Obligation) bool { return o.Rule == "R1" || o.Rule == "R5" })
 }
 
